@@ -374,7 +374,7 @@ func brun(args []string) error {
 	// topics stamped in one callback): whatever way the converter walks the table, every row is converted once
 	nbig := 2
 	if *heavy {
-		nbig = 8
+		nbig = 4 // the judge compares the two multisets of rows pairwise: quadratic in the number of rows
 	}
 	for i := 0; i < nbig; i++ {
 		cfg := g.Cfg()
@@ -385,7 +385,7 @@ func brun(args []string) error {
 		d := genDB(r)
 		d.Msgs = nil
 		stamps := 1 + []int{0, 2, 7, 40}[r.Intn(4)]
-		nm := 1001 + r.Intn(1300)
+		nm := 1001 + r.Intn(500)
 		for k := 0; k < nm; k++ {
 			t := d.Topics[r.Intn(len(d.Topics))]
 			d.Msgs = append(d.Msgs, dbMsg{Topic: t.ID, TS: int64(1000 + 10*r.Intn(stamps)), Data: []byte{byte(k), byte(k >> 8)}})
